@@ -704,21 +704,6 @@ func (u *Unit) appendOp(st *State, instr ssa.Instruction, cc *ssa.CallCommon, ar
 	resCap := Ite(fits, scap, newCap)
 	res := app(SSlice, "mk_slice", resArr, resOff, newLen, resCap)
 
-	if lits != nil {
-		// explicit stores
-		rowIn := Select(h, sarr)
-		rowFresh := u.fresh("row.append", ArrSort(SInt, es))
-		// fresh row copies the old prefix
-		st.assume(T{fmt.Sprintf("(forall ((i!q Int)) (! (=> (and (<= 0 i!q) (< i!q %s)) (= (select %s i!q) (select %s (+ %s i!q)))) :pattern ((select %s i!q))))",
-			slen.S, rowFresh.S, rowIn.S, soff.S, rowFresh.S), SBool})
-		ri, rf := rowIn, rowFresh
-		for j, e := range lits {
-			ri = Store(ri, Add(Add(soff, slen), IntLit(int64(j))), e)
-			rf = Store(rf, Add(slen, IntLit(int64(j))), e)
-		}
-		u.heapSet(st, hn, Ite(fits, Store(h, sarr, ri), Store(h, freshArr, rf)))
-		return res
-	}
 	// general case: new heap described by quantified facts over selem
 	h2 := u.fresh(hn+"@append", hs)
 	resC := name(res, "app.res")
@@ -726,9 +711,19 @@ func (u *Unit) appendOp(st *State, instr ssa.Instruction, cc *ssa.CallCommon, ar
 	q := fmt.Sprintf("(forall ((a!q Int)) (! (=> (not (= a!q %s)) (= (select %s a!q) (select %s a!q))) :pattern ((select %s a!q))))", resArr.S, h2.S, h.S, h2.S)
 	st.assume(T{q, SBool})
 	iq := T{"i!q", SInt}
-	t2C := name(u.lower(st, args[1], cc.Args[1].Type()), "app.t")
+	var appended T
+	if lits != nil {
+		// literal elements: nested ite on the relative index
+		appended = lits[len(lits)-1]
+		for j := len(lits) - 2; j >= 0; j-- {
+			appended = Ite(Eq(Sub(iq, slen), IntLit(int64(j))), lits[j], appended)
+		}
+	} else {
+		t2C := name(u.lower(st, args[1], cc.Args[1].Type()), "app.t")
+		appended = u.selem(h, t2C, Sub(iq, slen))
+	}
 	q2 := fmt.Sprintf("(forall ((i!q Int)) (! (=> (and (<= 0 i!q) (< i!q %s)) (= %s (ite (< i!q %s) %s %s))) :pattern (%s)))",
-		newLen.S, u.selem(h2, resC, iq).S, slen.S, u.selem(h, sC, iq).S, u.selem(h, t2C, Sub(iq, slen)).S, u.selem(h2, resC, iq).S)
+		newLen.S, u.selem(h2, resC, iq).S, slen.S, u.selem(h, sC, iq).S, appended.S, u.selem(h2, resC, iq).S)
 	st.assume(T{q2, SBool})
 	_ = elemAt
 	row2 := Select(h2, resArr)
